@@ -173,7 +173,12 @@ func (vctx *VersionedCtx) MasterVersion(version dvid.VersionID) bool {
 // NumVersions returns the number of versions for a given
 func (vctx *VersionedCtx) NumVersions() int32 {
 	rootversion, _ := UUIDFromVersion(vctx.VersionID())
-	r := manager.repos[rootversion]
+	r, err := manager.repoFromUUID(rootversion)
+	if err != nil {
+		return 0
+	}
+	r.RLock()
+	defer r.RUnlock()
 	return int32(len(r.dag.nodes))
 }
 
